@@ -295,8 +295,27 @@ def generated_obligations(name, src, out, samples, scratch):
     return tu, info
 
 
-def scheduler_obligations(name, src, out, samples, scratch):
-    d = os.path.join(scratch, name)
+SENTINEL0 = 1000003
+
+
+def with_sentinel_periods(src):
+    """the same schema with the period of the i-th CAN binding replaced by the literal SENTINEL0 + 2*i"""
+    import re
+    k = [0]
+
+    def rep(m):
+        body = re.sub(r"period\s*:\s*-?\d+\s*,?", "", m.group(2))
+        r = f"{m.group(1)}{body} period: {SENTINEL0 + 2 * k[0]}, }}"
+        k[0] += 1
+        return r
+    return re.sub(r"(impl can for \w+ \{)([^}]*)\}", rep, src)
+
+
+def scheduler_obligations(name, src, out, samples, scratch, symbolic=False):
+    if symbolic:
+        src = with_sentinel_periods(src)
+        name = name + "/any-period"
+    d = os.path.join(scratch, name.replace("/", "_"))
     info, err = generate(src, d)
     if info is None:
         out.append({"obligation": f"gen[{name}]#generator-runs", "verdict": "refuted", "reason": err})
@@ -321,8 +340,18 @@ def scheduler_obligations(name, src, out, samples, scratch):
             ex.frames.append({"__dev": ex.fresh_record(pas_dev, "dev")})
             return [Ptr(("var", 0, "__dev")), IV(tm, 32, False), ("__callback__", "send_can_func")]
 
+        lit, ppre = None, []
+        if symbolic:
+            # the #define'd period of each message is an arbitrary int >= -1 (the literal in the header is a sentinel that the
+            # symbolic executor reads as the constant P_i): one proof per program shape covers every period
+            lit = {}
+            for m in msgs:
+                Pi = z3.BitVec(f"period_{m['snake']}", 32)
+                lit[int(m["period"])] = IV(Pi, 32, True)
+                ppre.append(Pi >= -1)
+                m["_P"] = Pi
         try:
-            paths = explore(tu, fname, args, static_init=init)
+            paths = explore(tu, fname, args, static_init=init, literal_subst=lit)
             # expected frames: the encoder applied to the device's current value of each message
             exp = []
             for m in msgs:
@@ -334,6 +363,9 @@ def scheduler_obligations(name, src, out, samples, scratch):
             conds = []
             for i, m in enumerate(msgs):
                 P = m["period"]
+                if symbolic:
+                    conds.append(z3.And(m["_P"] != -1, z3.UGE(tm - last_send[i], m["_P"])))
+                    continue
                 conds.append(z3.BoolVal(False) if P == -1 else z3.UGE(tm - last_send[i], z3.BitVecVal(P & 0xFFFFFFFF, 32)))
             total = z3.BoolVal(False)
             for pth in paths:
@@ -376,8 +408,8 @@ def scheduler_obligations(name, src, out, samples, scratch):
                     per.append(z3.And(fr["id"].e == exp[i]["id"].e, fr["dlc"].e == exp[i]["dlc"].e, fr["data"].e == exp[i]["data"].e))
                 goal_parts.append(z3.Implies(z3.Not(same_time), z3.And(per)))
                 prove(f"gen[{name}]:{fname}#one-step[sent exactly when due; frames = encoding of the device value; state updated]",
-                      pth["pc"], z3.And(goal_parts), out)
-            prove(f"gen[{name}]:{fname}#paths-exhaustive", [], total, out)
+                      ppre + pth["pc"], z3.And(goal_parts), out)
+            prove(f"gen[{name}]:{fname}#paths-exhaustive", ppre, total, out)
             # consequence for histories: two transmissions of message i are at least P_i apart (wrapping distance), -1 never sends
             if len(samples) < 3:
                 samples.append({"device": dev, "messages": [(m["name"], m["period"]) for m in msgs], "paths": len(paths)})
@@ -527,6 +559,9 @@ def main(pid, tier, seed):
         else:
             for name, src in gen_family(seed, tier):
                 scheduler_obligations(name, src, out, samples, scratch)
+            for name, src in gen_family(seed, tier):
+                if name in ("basic", "mixed", "wide"):
+                    scheduler_obligations(name, src, out, samples, scratch, symbolic=True)
     finally:
         shutil.rmtree(scratch, ignore_errors=True)
     return finish(pid, tier, seed, out, samples, t0)
@@ -584,7 +619,8 @@ def finish(pid, tier, seed, out, samples, t0):
                            "the code does); unions are bit patterns; bit-fields id:11 / dlc:4 are masked integers",
                            "float arguments that are literals (scale 1.0, offset 0.0) are folded with IEEE-754 semantics",
                            "the family of generated programs is finite: each program is proved for all inputs, the jinja templates are not "
-                           "proved to produce the same shape for schemas outside the family",
+                           "proved to produce the same shape for schemas outside the family; for three program shapes the scheduler is also "
+                           "proved with the #define'd periods as arbitrary ints >= -1 (sentinel literals read as symbolic constants)",
                            "z3 4.x/5.x bit-vector and floating point decision procedures; pv/cfront.py itself"],
                        "programs": len({o["obligation"].split("]")[0] for o in out if o["obligation"].startswith("gen[")}),
                        "samples": samples or [o for o in out[:3]],
